@@ -261,3 +261,37 @@ def r07g(ctx):
         else:
             ctx.bad(cid, mv.cls.module.loc(mv.node), f"{c.qual} absorbs column selections (`_absorb_projections`) but {mv.cls.qual}._meta never subscripts the meta by the columns operand, unlike every sibling source: whatever the wrapped reader adds beyond the requested columns (the path column of read_csv) stays in the declared schema and in every partition after the projection was absorbed")
     ctx.floor("sources that absorb projections", n, 8)
+
+
+@rule(
+    "R07h",
+    ["C07", "C04"],
+    """EVERY OUTPUT PARTITION OF loc[rows, columns] APPLIES THE COLUMN INDEXER: LocSlice._layer writes its partitions by hand - first,
+    interior and last. When a column indexer is set (`self.cindexer is not None`) each of them must go through it; a partition copied
+    straight from the frame (`(self.frame._name, i)`) keeps all columns while the declared schema and its neighbours have the selected
+    ones. A task that does not mention `self.cindexer` is only allowed under `self.cindexer is None`.""",
+)
+def r07h(ctx):
+    from sa import flow
+
+    model = ctx.model
+    c = model.cls("LocSlice", "_indexing")
+    fn = model.method(c, "_layer", own=True).node
+    n = 0
+    for st in flow.walk(fn):
+        s_ = st.stmt
+        if not (isinstance(s_, ast.Assign) and isinstance(s_.targets[0], ast.Subscript) and "self._name" in ast.unparse(s_.targets[0].slice)):
+            continue
+        n += 1
+        cid = f"_indexing.LocSlice._layer:partition-task#{n}"
+        if "self.cindexer" in ast.unparse(s_.value):
+            ctx.ok(cid, c.module.loc(s_), "the task applies the column indexer")
+        elif any(pol and pmatch_none(t) for t, pol in flow.facts(st)):
+            ctx.ok(cid, c.module.loc(s_), "plain copy only when there is no column indexer")
+        else:
+            ctx.bad(cid, c.module.loc(s_), f"`{ast.unparse(s_)[:100]}` copies a partition of the frame without applying `self.cindexer` and without being guarded by `self.cindexer is None`: interior partitions of df.loc[a:b, cols] keep every column of df while the first and last partition (and the declared schema) have only `cols`")
+    ctx.floor("hand-written partition tasks of LocSlice._layer", n, 2)
+
+
+def pmatch_none(t):
+    return isinstance(t, ast.Compare) and isinstance(t.ops[0], ast.Is) and ast.unparse(t.left) == "self.cindexer" and ast.unparse(t.comparators[0]) == "None"
